@@ -26,13 +26,14 @@ package allocator
 //@ pred SoleTenant(a *Allocator, svc string, ip string) := forall o string :: o in a.servicesOnIP[ip] ==> o == svc
 //@ pred PortsFree(a *Allocator, svc string, ip string, ports []Port) :=
 //@     forall i int :: 0 <= i && i < len(ports) ==> (!(ports[i] in a.portsInUse[ip]) || a.portsInUse[ip][ports[i]] == svc)
-//@ pred Sharable(a *Allocator, svc string, ip string, ports []Port, sk *key) :=
+//@ pred KeyCompatV(e key, sharing string, backend string) := e.sharing != "" && sharing != "" && e.sharing == sharing && e.backend == backend
+//@ pred Sharable(a *Allocator, svc string, ip string, ports []Port, sharing string, backend string) :=
 //@     a.sharingKeyForIP[ip] == nil ||
-//@     ((KeyCompat(*a.sharingKeyForIP[ip], *sk) || SoleTenant(a, svc, ip)) && PortsFree(a, svc, ip, ports))
+//@     ((KeyCompatV(*a.sharingKeyForIP[ip], sharing, backend) || SoleTenant(a, svc, ip)) && PortsFree(a, svc, ip, ports))
 
 //@ func (*Allocator).checkSharing
 //@   requires a != nil && sk != nil
-//@   ensures (result == nil) == old(Sharable(a, svc, ip, ports, sk))
+//@   ensures (result == nil) == old(Sharable(a, svc, ip, ports, sk.sharing, sk.backend))
 //@   modifies fresh []string, fresh []interface{}
 //@   loop 1 invariant otherSvcs == nil || fresh(otherSvcs)
 //@   loop 1 invariant forall o string :: o in otherSvcs ==> o in visited && o != svc
@@ -195,7 +196,7 @@ package allocator
 //@   trusted
 // PoolCIDRsOK: data invariant of a parsed pool: every CIDR is present and has a canonical 32- or 128-bit mask.
 //@ pred PoolCIDRsOK(p *config.Pool) := p != nil && (forall i int :: 0 <= i && i < len(p.CIDR) ==>
-//@     p.CIDR[i] != nil && (net.maskBits(p.CIDR[i].Mask) == 32 || net.maskBits(p.CIDR[i].Mask) == 128))
+//@     p.CIDR[i] != nil && (net.maskBits(p.CIDR[i].Mask) == 32 || net.maskBits(p.CIDR[i].Mask) == 128) && net.netValid(*p.CIDR[i]))
 //@ func saturatingAdd
 //@   check overflow
 //@   requires a >= 0 && b >= 0
@@ -337,7 +338,7 @@ package allocator
 //@   ensures [families] result == nil ==> len(ips) <= 2 && (len(ips) == 2 ==> net.is4(ips[0]) != net.is4(ips[1]))
 //@   ensures [poolsSame] a.pools == old(a.pools) && (forall n string :: (n in a.pools.ByName) == old(n in a.pools.ByName) && a.pools.ByName[n] == old(a.pools.ByName[n]))
 //@   loop 1 invariant sk != nil && fresh(sk) && sk.sharing == sharingKey && sk.backend == backendKey && pool != nil
-//@   loop 1 invariant forall k int :: 0 <= k && k < iter ==> Sharable(a, svcKey, net.ipstr(ips[k]), ports, sk)
+//@   loop 1 invariant forall k int :: 0 <= k && k < iter ==> Sharable(a, svcKey, net.ipstr(ips[k]), ports, sharingKey, backendKey)
 //@   loop 1 invariant Inv(a) && (forall s string :: a.allocated[s] == old(a.allocated[s]))
 //@   loop 1 invariant forall n string :: (n in a.pools.ByName) == old(n in a.pools.ByName) && a.pools.ByName[n] == old(a.pools.ByName[n])
 //@   assert before assign: [wf] WFAlloc(alloc)
@@ -349,3 +350,165 @@ package allocator
 //@       a.sharingKeyForIP[x] != nil && a.sharingKeyForIP[x].sharing == a.allocated[s].sharing && a.sharingKeyForIP[x].backend == a.allocated[s].backend
 //@   assert before assign: [portOfHolder] forall x string, s string, p Port :: (s in a.servicesOnIP[x]) && HasPort(a.allocated[s], p) ==> (p in a.portsInUse[x]) && a.portsInUse[x][p] == s
 //@   assert before assign: [safe] SafeFor(a, svcKey, alloc)
+
+// ---- read-only accessors ----
+//@ func (*Allocator).Pool
+//@   requires a != nil && a.allocated != nil
+//@   ensures result == ite(a.allocated[svc] != nil, a.allocated[svc].pool, "")
+//@   modifies nothing
+//@ func (*Allocator).IPs
+//@   requires a != nil && a.allocated != nil
+//@   ensures a.allocated[svc] != nil ==> sameSlice(result, a.allocated[svc].ips)
+//@   ensures a.allocated[svc] == nil ==> result == nil
+//@   modifies nothing
+//@ func (*Allocator).AllocationKey
+//@   requires a != nil && a.allocated != nil
+//@   ensures result == ite(a.allocated[svc] != nil, a.allocated[svc].backend + a.allocated[svc].sharing, "")
+//@   modifies nothing
+//@ func (*Allocator).PoolForIP
+//@   requires a != nil && a.pools != nil && PoolsOK(a.pools.ByName)
+//@   ensures result != nil ==> (exists n string :: n in a.pools.ByName && a.pools.ByName[n] == result) && AllInPool(result, ips)
+//@   ensures result == nil ==> (forall n string :: n in a.pools.ByName ==> !AllInPool(a.pools.ByName[n], ips))
+//@   modifies nothing
+
+//@ func ipPolicyForService
+//@   requires svc != nil
+//@   ensures result == ite(svc.Spec.IPFamilyPolicy != nil, *svc.Spec.IPFamilyPolicy, v1.IPFamilyPolicySingleStack)
+//@   modifies nothing
+//@ func isPreferDualStack
+//@   ensures result == (serviceIPFamilyPolicy == v1.IPFamilyPolicyPreferDualStack && serviceIPFamily == ipfamily.DualStack)
+//@   modifies nothing
+
+// ---- Allocation: the per-pool search result ----
+//@ func (*Allocation).getIPForFamily
+//@   requires a != nil
+//@   ensures result == ite(family == ipfamily.IPv4, a.IPV4, ite(family == ipfamily.IPv6, a.IPV6, nil))
+//@   modifies nothing
+//@ func (*Allocation).setIPForFamily
+//@   requires a != nil
+//@   ensures a.IPV4 == ite(ip != nil && family == ipfamily.IPv4, ip, old(a.IPV4))
+//@   ensures a.IPV6 == ite(ip != nil && family == ipfamily.IPv6, ip, old(a.IPV6))
+//@   modifies a.IPV4, a.IPV6
+
+// ---- the search for a free address (C02 soundness, C07 completeness) ----
+// Usable: address x of this pool policy can be given to svc with these ports and keys.
+//@ pred Usable(a *Allocator, avoid bool, svc string, ports []Port, sharing string, backend string, x net.IP) :=
+//@     !(avoid && Buggy(x)) && Sharable(a, svc, net.ipstr(x), ports, sharing, backend)
+
+//@ func (*Allocator).getIPFromCIDR
+//@   requires a != nil && cidr != nil && net.netValid(*cidr)
+//@   ensures [sound] result != nil ==> net.NetContains(*cidr, result) && Usable(a, avoidBuggyIPs, svc, ports, sharingKey, backendKey, result)
+//@   ensures [complete] result == nil ==> (forall n int :: 0 <= n && n < ipaddr.prefixSize(*cidr) ==>
+//@       !Usable(a, avoidBuggyIPs, svc, ports, sharingKey, backendKey, ipaddr.nthAddr(*cidr, n)))
+//@   modifies fresh *key, fresh []ipaddr.Prefix, fresh *ipaddr.Prefix, fresh *ipaddr.Cursor, fresh *ipaddr.Position, fresh []string, fresh []interface{}, gint("cursor.pos")
+//@   loop 1 invariant c != nil && fresh(c) && ipaddr.curNet(c) == *cidr && sk != nil && fresh(sk) && sk.sharing == sharingKey && sk.backend == backendKey
+//@   loop 1 invariant pos != nil ==> 0 <= gint("cursor.pos", c) && gint("cursor.pos", c) < ipaddr.prefixSize(*cidr) && pos.IP == ipaddr.nthAddr(*cidr, gint("cursor.pos", c))
+//@   loop 1 invariant pos == nil ==> gint("cursor.pos", c) + 1 >= ipaddr.prefixSize(*cidr) && 0 <= gint("cursor.pos", c)
+//@   loop 1 invariant forall n int :: 0 <= n && (n < gint("cursor.pos", c) || (pos == nil && n <= gint("cursor.pos", c))) && n < ipaddr.prefixSize(*cidr) ==>
+//@       !Usable(a, avoidBuggyIPs, svc, ports, sharingKey, backendKey, ipaddr.nthAddr(*cidr, n))
+
+//@ pred One(r []net.IP, x net.IP) := len(r) == 1 && r[0] == x
+//@ pred Two(r []net.IP, x net.IP, y net.IP) := len(r) == 2 && r[0] == x && r[1] == y
+// SelectedIPs: the complete case table of selectIPsForFamilyAndPolicy (r == nil means "error").
+//@ pred Selected(v4 net.IP, v6 net.IP, fam ipfamily.Family, pol v1.IPFamilyPolicy, ok bool, r []net.IP) :=
+//@     ite(fam == ipfamily.IPv4, ok && One(r, v4),
+//@     ite(fam == ipfamily.IPv6, ok && One(r, v6),
+//@     ite(pol == v1.IPFamilyPolicyRequireDualStack, ite(v4 != nil && v6 != nil, ok && Two(r, v4, v6), !ok),
+//@     ite(pol == v1.IPFamilyPolicyPreferDualStack,
+//@         ite(v4 != nil && v6 != nil, ok && Two(r, v4, v6), ite(v4 != nil, ok && One(r, v4), ite(v6 != nil, ok && One(r, v6), !ok))),
+//@         !ok))))
+//@ func (*Allocation).selectIPsForFamilyAndPolicy
+//@   requires a != nil
+//@   ensures Selected(a.IPV4, a.IPV6, serviceIPFamily, serviceIPFamilyPolicy, result1 == nil, result0)
+//@   ensures result1 != nil ==> result0 == nil
+//@   ensures result0 == nil || fresh(result0)
+//@   modifies fresh []net.IP, fresh []interface{}
+
+// FreeIn: the pool has an address of that family usable by svc.
+//@ pred FreeIn(a *Allocator, p *config.Pool, v4 bool, svc string, ports []Port, sharing string, backend string) :=
+//@     exists c int, n int :: 0 <= c && c < len(p.CIDR) && net.is4(p.CIDR[c].IP) == v4 && 0 <= n && n < ipaddr.prefixSize(*p.CIDR[c])
+//@         && Usable(a, p.AvoidBuggyIPs, svc, ports, sharing, backend, ipaddr.nthAddr(*p.CIDR[c], n))
+// FoundIn: ip is a usable address of family v4 inside one CIDR of the pool.
+//@ pred FoundIn(a *Allocator, p *config.Pool, v4 bool, svc string, ports []Port, sharing string, backend string, ip net.IP) :=
+//@     Usable(a, p.AvoidBuggyIPs, svc, ports, sharing, backend, ip) &&
+//@     (exists c int :: 0 <= c && c < len(p.CIDR) && net.is4(p.CIDR[c].IP) == v4 && net.NetContains(*p.CIDR[c], ip))
+
+//@ func (*Allocator).getFreeIPsFromPool
+//@   requires a != nil && PoolCIDRsOK(pool)
+//@   ensures result != nil && fresh(result) && result.PoolName == pool.Name
+//@   ensures [sound4] result.IPV4 != nil ==> FoundIn(a, pool, true, svcKey, ports, sharingKey, backendKey, result.IPV4)
+//@   ensures [sound6] result.IPV6 != nil ==> FoundIn(a, pool, false, svcKey, ports, sharingKey, backendKey, result.IPV6)
+//@   ensures [complete4] result.IPV4 == nil ==> !FreeIn(a, pool, true, svcKey, ports, sharingKey, backendKey)
+//@   ensures [complete6] result.IPV6 == nil ==> !FreeIn(a, pool, false, svcKey, ports, sharingKey, backendKey)
+//@   modifies fresh *Allocation, fresh *key, fresh []ipaddr.Prefix, fresh *ipaddr.Prefix, fresh *ipaddr.Cursor, fresh *ipaddr.Position, fresh []string, fresh []interface{}, gint("cursor.pos")
+//@   loop 1 invariant allocation != nil && fresh(allocation) && allocation.PoolName == pool.Name
+//@   loop 1 invariant allocation.IPV4 != nil ==> FoundIn(a, pool, true, svcKey, ports, sharingKey, backendKey, allocation.IPV4)
+//@   loop 1 invariant allocation.IPV6 != nil ==> FoundIn(a, pool, false, svcKey, ports, sharingKey, backendKey, allocation.IPV6)
+//@   loop 1 invariant allocation.IPV4 == nil ==> (forall c int, n int :: 0 <= c && c < iter && net.is4(pool.CIDR[c].IP) && 0 <= n && n < ipaddr.prefixSize(*pool.CIDR[c]) ==>
+//@       !Usable(a, pool.AvoidBuggyIPs, svcKey, ports, sharingKey, backendKey, ipaddr.nthAddr(*pool.CIDR[c], n)))
+//@   loop 1 invariant allocation.IPV6 == nil ==> (forall c int, n int :: 0 <= c && c < iter && !net.is4(pool.CIDR[c].IP) && 0 <= n && n < ipaddr.prefixSize(*pool.CIDR[c]) ==>
+//@       !Usable(a, pool.AvoidBuggyIPs, svcKey, ports, sharingKey, backendKey, ipaddr.nthAddr(*pool.CIDR[c], n)))
+
+// FamIP: the address the search result holds for family fam.
+//@ fun FamIP(r *Allocation, fam ipfamily.Family) net.IP := ite(fam == ipfamily.IPv4, r.IPV4, ite(fam == ipfamily.IPv6, r.IPV6, nil))
+// Satisfies: the search result is acceptable for the service family / family policy.
+//@ pred Satisfies(r *Allocation, fam ipfamily.Family, pol v1.IPFamilyPolicy) :=
+//@     FamIP(r, fam) != nil || (r.IPV4 != nil && r.IPV6 != nil) ||
+//@     (pol == v1.IPFamilyPolicyPreferDualStack && fam == ipfamily.DualStack && (r.IPV4 != nil || r.IPV6 != nil))
+// CanSatisfy: pool p has the free addresses needed to be acceptable.
+//@ pred CanSatisfy(a *Allocator, p *config.Pool, fam ipfamily.Family, pol v1.IPFamilyPolicy, svc string, ports []Port, sharing string, backend string) :=
+//@     (fam == ipfamily.IPv4 && FreeIn(a, p, true, svc, ports, sharing, backend)) ||
+//@     (fam == ipfamily.IPv6 && FreeIn(a, p, false, svc, ports, sharing, backend)) ||
+//@     (FreeIn(a, p, true, svc, ports, sharing, backend) && FreeIn(a, p, false, svc, ports, sharing, backend)) ||
+//@     (pol == v1.IPFamilyPolicyPreferDualStack && fam == ipfamily.DualStack &&
+//@         (FreeIn(a, p, true, svc, ports, sharing, backend) || FreeIn(a, p, false, svc, ports, sharing, backend)))
+// FromPool: the result's addresses were found in pool p.
+//@ pred FromPool(a *Allocator, r *Allocation, p *config.Pool, svc string, ports []Port, sharing string, backend string) :=
+//@     r.PoolName == p.Name &&
+//@     (r.IPV4 != nil ==> FoundIn(a, p, true, svc, ports, sharing, backend, r.IPV4)) &&
+//@     (r.IPV6 != nil ==> FoundIn(a, p, false, svc, ports, sharing, backend, r.IPV6))
+//@ pred PoolListOK(pools []*config.Pool) := forall i int :: 0 <= i && i < len(pools) ==> PoolCIDRsOK(pools[i])
+
+//@ func (*Allocator).findBestPoolForService
+//@   requires a != nil && svc != nil && PoolListOK(pools)
+//@   ensures [sound] result1 == nil ==> result0 != nil && fresh(result0) && Satisfies(result0, serviceIPFamily, ipPolicyForServiceSpec(svc))
+//@       && (exists i int :: 0 <= i && i < len(pools) && FromPool(a, result0, pools[i], svcKey, ports, sharingKey, backendKey))
+//@   ensures [complete] result1 != nil ==> result0 == nil && (forall i int :: 0 <= i && i < len(pools) ==>
+//@       !CanSatisfy(a, pools[i], serviceIPFamily, ipPolicyForServiceSpec(svc), svcKey, ports, sharingKey, backendKey))
+//@   modifies fresh *Allocation, fresh *key, fresh []ipaddr.Prefix, fresh *ipaddr.Prefix, fresh *ipaddr.Cursor, fresh *ipaddr.Position, fresh []string, fresh []interface{}, gint("cursor.pos")
+//@   loop 1 invariant serviceIPFamilyPolicy == ipPolicyForServiceSpec(svc) && svc == old(svc)
+//@   loop 1 invariant (primaryIPFamily == ipfamily.IPv4 && secondaryIPFamily == ipfamily.IPv6) || (primaryIPFamily == ipfamily.IPv6 && secondaryIPFamily == ipfamily.IPv4)
+//@   loop 1 invariant forall i int :: 0 <= i && i < iter ==> !CanSatisfyFull(a, pools[i], serviceIPFamily, svcKey, ports, sharingKey, backendKey)
+//@   loop 1 invariant primaryAllocationCandidate != nil ==> fresh(primaryAllocationCandidate) && FamIP(primaryAllocationCandidate, primaryIPFamily) != nil
+//@       && isPreferDualStackSpec(serviceIPFamilyPolicy, serviceIPFamily)
+//@       && (exists i int :: 0 <= i && i < iter && FromPool(a, primaryAllocationCandidate, pools[i], svcKey, ports, sharingKey, backendKey))
+//@   loop 1 invariant secondaryAllocationCandidate != nil ==> fresh(secondaryAllocationCandidate) && FamIP(secondaryAllocationCandidate, secondaryIPFamily) != nil
+//@       && isPreferDualStackSpec(serviceIPFamilyPolicy, serviceIPFamily)
+//@       && (exists i int :: 0 <= i && i < iter && FromPool(a, secondaryAllocationCandidate, pools[i], svcKey, ports, sharingKey, backendKey))
+//@   loop 1 invariant primaryAllocationCandidate == nil && secondaryAllocationCandidate == nil ==> (forall i int :: 0 <= i && i < iter ==>
+//@       !CanSatisfy(a, pools[i], serviceIPFamily, serviceIPFamilyPolicy, svcKey, ports, sharingKey, backendKey))
+//@ fun ipPolicyForServiceSpec(svc *v1.Service) v1.IPFamilyPolicy := ite(svc.Spec.IPFamilyPolicy != nil, *svc.Spec.IPFamilyPolicy, v1.IPFamilyPolicySingleStack)
+//@ pred isPreferDualStackSpec(pol v1.IPFamilyPolicy, fam ipfamily.Family) := pol == v1.IPFamilyPolicyPreferDualStack && fam == ipfamily.DualStack
+// CanSatisfyFull: the family's own address, or both addresses, are free in p.
+//@ pred CanSatisfyFull(a *Allocator, p *config.Pool, fam ipfamily.Family, svc string, ports []Port, sharing string, backend string) :=
+//@     (fam == ipfamily.IPv4 && FreeIn(a, p, true, svc, ports, sharing, backend)) ||
+//@     (fam == ipfamily.IPv6 && FreeIn(a, p, false, svc, ports, sharing, backend)) ||
+//@     (FreeIn(a, p, true, svc, ports, sharing, backend) && FreeIn(a, p, false, svc, ports, sharing, backend))
+
+// ---- allocation entry points: they change the allocator only through Assign ----
+// AssignedOK: what a successful allocation of ips to svcKey guarantees (from Assign's contract).
+//@ pred AssignedOK(a *Allocator, svcKey string, svc *v1.Service, ips []net.IP, ports []Port, sharingKey string, backendKey string) :=
+//@     RecordIs(a.allocated[svcKey], ips, ports, sharingKey, backendKey)
+//@     && (a.allocated[svcKey].pool in a.pools.ByName) && AllInPool(a.pools.ByName[a.allocated[svcKey].pool], ips)
+//@     && PoolAdmits(a.pools.ByName[a.allocated[svcKey].pool], svc)
+//@     && len(ips) >= 1 && len(ips) <= 2 && (len(ips) == 2 ==> net.is4(ips[0]) != net.is4(ips[1]))
+//@ pred PoolsSame(a *Allocator) := true
+
+//@ func (*Allocator).allocateFromPools
+//@   requires Inv(a) && a.countersChangedCallback != nil && svc != nil && PoolsKeyedOK(a.pools.ByName) && PortsOK(ports) && PoolListOK(pools)
+//@   ensures Inv(a)
+//@   ensures [others] forall s string :: s != svcKey ==> a.allocated[s] == old(a.allocated[s])
+//@   ensures [unchangedOnError] result1 != nil ==> result0 == nil && (forall s string :: a.allocated[s] == old(a.allocated[s]))
+//@   ensures [assigned] result1 == nil ==> AssignedOK(a, svcKey, svc, result0, ports, sharingKey, backendKey)
+//@   ensures [fromList] result1 == nil ==> (exists i int :: 0 <= i && i < len(pools) && (forall k int :: 0 <= k && k < len(result0) ==> InCIDRs(pools[i], result0[k])))
+//@   ensures [poolsSame] a.pools == old(a.pools) && (forall n string :: (n in a.pools.ByName) == old(n in a.pools.ByName) && a.pools.ByName[n] == old(a.pools.ByName[n]))
